@@ -158,7 +158,8 @@ def ws_facts(variant='ws'):
         tmp = out + '.tmp'
         shutil.rmtree(tmp, ignore_errors=True)
         os.makedirs(tmp)
-        target = os.path.join(CACHE, 'ws-target' if variant == 'ws' else 'ws-target-' + variant)
+        tag = hashlib.sha256(REPO.encode()).hexdigest()[:6] if REPO != '/repo' else ''
+        target = os.path.join(CACHE, ('ws-target' if variant == 'ws' else 'ws-target-' + variant) + tag)
         _drop_fingerprints(target, ['pilota', 'pilota-build', 'pilota-thrift-parser', 'examples'])
         lock = os.path.join(REPO, 'Cargo.lock')
         saved = open(lock, 'rb').read() if os.path.exists(lock) else None
@@ -184,14 +185,15 @@ def ws_facts(variant='ws'):
     return out
 
 
-def harness_facts(split=False):
+def harness_facts(split=False, change_case=True, ignore_unused=False):
     """facts for the generated-code harness: /repo's pilota-build is run on the corpus by the harness build script
     (a build step), the emitted Rust is type-checked against /repo's runtime and its MIR dumped."""
     ensure_driver()
     hdir = os.path.join(VERIF, 'harness', 'gen')
     cdir = os.path.join(VERIF, 'corpus')
-    key = hashlib.sha256((tree_hash(REPO) + file_hash(DRIVER_BIN) + dir_hash(cdir) + dir_hash(hdir) + str(split)).encode()).hexdigest()[:20]
-    out = os.path.join(CACHE, 'facts', ('gen-split-' if split else 'gen-') + key)
+    cfg = ('split' if split else '') + ('' if change_case else 'nocase') + ('ignoreunused' if ignore_unused else '')
+    key = hashlib.sha256((tree_hash(REPO) + file_hash(DRIVER_BIN) + dir_hash(cdir) + dir_hash(hdir) + cfg).encode()).hexdigest()[:20]
+    out = os.path.join(CACHE, 'facts', 'gen-' + (cfg + '-' if cfg else '') + key)
     if os.path.exists(os.path.join(out, '.ok')):
         os.utime(out)
         return out
@@ -201,17 +203,27 @@ def harness_facts(split=False):
         tmp = out + '.tmp'
         shutil.rmtree(tmp, ignore_errors=True)
         os.makedirs(tmp)
-        target = os.path.join(CACHE, 'harness-target-split' if split else 'harness-target')
+        tag = hashlib.sha256(REPO.encode()).hexdigest()[:6] if REPO != '/repo' else ''
+        target = os.path.join(CACHE, 'harness-target' + ('-' + cfg if cfg else '') + tag)
         _drop_fingerprints(target, ['vgen'])
-        # the harness has its own lock file, seeded from /repo's (never fetched)
-        shutil.copyfile(os.path.join(REPO, 'Cargo.lock'), os.path.join(hdir, 'Cargo.lock'))
+        # build from a scratch copy of the harness sources (path dependencies pointed at the repository under analysis);
+        # the copy has its own lock file, seeded from the repository's (never fetched)
+        src = os.path.join(CACHE, 'harness-src' + tag + ('-' + cfg if cfg else ''))
+        shutil.rmtree(src, ignore_errors=True)
+        shutil.copytree(hdir, src, ignore=shutil.ignore_patterns('target', 'Cargo.lock'))
+        ct = open(os.path.join(src, 'Cargo.toml')).read().replace('"/repo/', '"%s/' % REPO)
+        open(os.path.join(src, 'Cargo.toml'), 'w').write(ct)
+        hdir_build = src
+        shutil.copyfile(os.path.join(REPO, 'Cargo.lock'), os.path.join(src, 'Cargo.lock'))
         repo_lock = open(os.path.join(REPO, 'Cargo.lock'), 'rb').read()
         env = _wrapper_env(tmp, target)
         env['VGEN_CORPUS'] = cdir
         env['VGEN_SPLIT'] = '1' if split else '0'
+        env['VGEN_CHANGE_CASE'] = '1' if change_case else '0'
+        env['VGEN_IGNORE_UNUSED'] = '1' if ignore_unused else '0'
         env['FACTS_CRATES'] = 'vgen'
         try:
-            r = sh('cargo +nightly check --offline', cwd=hdir, env=env)
+            r = sh('cargo +nightly check --offline', cwd=hdir_build, env=env)
         finally:
             with open(os.path.join(REPO, 'Cargo.lock'), 'wb') as f:
                 f.write(repo_lock)
@@ -240,8 +252,13 @@ def harness_facts(split=False):
 
 def run_witness(rep, rule):
     """compile_fail witnesses + compiling twins (thorough tier): cargo +nightly test --doc on /verif/witness"""
-    wdir = os.path.join(VERIF, 'witness')
+    wsrc = os.path.join(VERIF, 'witness')
+    wdir = os.path.join(CACHE, 'witness-src')
     with Lock('witness'):
+        shutil.rmtree(wdir, ignore_errors=True)
+        shutil.copytree(wsrc, wdir, ignore=shutil.ignore_patterns('target', 'Cargo.lock'))
+        ct = open(os.path.join(wdir, 'Cargo.toml')).read().replace('"/repo/', '"%s/' % REPO)
+        open(os.path.join(wdir, 'Cargo.toml'), 'w').write(ct)
         shutil.copyfile(os.path.join(REPO, 'Cargo.lock'), os.path.join(wdir, 'Cargo.lock'))
         repo_lock = open(os.path.join(REPO, 'Cargo.lock'), 'rb').read()
         env = dict(os.environ, CARGO_NET_OFFLINE='true', CARGO_TARGET_DIR=os.path.join(CACHE, 'witness-target'))
